@@ -91,7 +91,7 @@ def job_src(tid, src, cfg, evm="cancun", scale=1, light=False):
         # payload lengths: when every payload of this path (return/revert data, log data, call data) is provably short, the
         # byte comparison is done at concrete positions (the bound is itself an obligation)
         lens = [R.data_of(o)[0]] + [e[2]["len"] for e in R.visible(o.world.trace) if e[0] == "log"] + [e[4]["len"] for e in R.visible(o.world.trace) if e[0] in ("call", "staticcall", "delegatecall")]
-        short = all(prove(z3.Implies(o.pc, z3.ULE(l, BV(PAYLOAD_BOUND))), hyps, timeout_ms=3000, use_cvc5=False, nl_abstraction=False)["status"] == "proved" for l in lens)
+        short = all(prove(z3.Implies(o.pc, z3.ULE(l, BV(PAYLOAD_BOUND))), hyps, timeout_ms=25000, use_cvc5=False, nl_abstraction=False)["status"] == "proved" for l in lens)
         # (2) every mandatory source outcome that can hold together with this path is observationally equal to it
         for s in compat:
             if getattr(s, "optional", False):
